@@ -694,18 +694,33 @@ class Daemon(object):
             objectId = getattr(objectOrId, "_pyroId", None)
             if objectId is None:
                 raise errors.DaemonError("object isn't registered")
+            registered = self.objectsById.get(objectId, objectOrId)
+            if isinstance(registered, weakref.ref):
+                registered = registered()
+            if registered is not objectOrId:
+                # the id the object remembers has been given to another object in the meantime
+                raise errors.DaemonError("object isn't registered")
         else:
             objectId = objectOrId
             objectOrId = None
         if objectId == core.DAEMON_NAME:
             return
         if objectId in self.objectsById:
-            del self.objectsById[objectId]
+            registered = self.objectsById.pop(objectId)
             if objectOrId is not None:
                 del objectOrId._pyroId
                 del objectOrId._pyroDaemon
                 # Don't remove the custom type serializer because there may be
                 # other registered objects of the same type still depending on it.
+            else:
+                # unregistered by id: the object must no longer be replaced by a proxy when serialized
+                if isinstance(registered, weakref.ref):
+                    registered = registered()
+                if registered is not None and getattr(registered, "_pyroId", None) == objectId:
+                    try:
+                        del registered._pyroDaemon
+                    except AttributeError:
+                        pass
 
     def uriFor(self, objectOrId, nat=True):
         """
